@@ -10,6 +10,10 @@ from .c14 import conf_text
 SERVER = "10.0.0.2:5683"
 PEER = "10.0.0.9:45000"
 GAPS = [1, 1, 1, 2, 31, 32, 33, 63, 64, 65, 1000]
+# jumps after which an earlier message is a multiple of 2^16 / 2^24 / 2^32 (+ less than a
+# window) behind: distances must not be taken modulo a narrower integer type
+FAR_GAPS = [2 ** 16, 2 ** 16 + 3, 2 ** 24 + 1, 2 ** 31, 2 ** 32 - 1, 2 ** 32, 2 ** 32 + 1, 2 ** 32 + 8,
+            2 ** 32 + 31, 2 ** 33 + 5]
 
 
 def mkctx(r):
@@ -133,7 +137,9 @@ def gen_ops(r, n):
     ops = []
     for _ in range(n):
         x = r.random()
-        if x < 0.45:
+        if x < 0.06:
+            ops.append(("fresh", r.choice(FAR_GAPS)))
+        elif x < 0.45:
             ops.append(("fresh", r.choice(GAPS)))
         elif x < 0.6:
             ops.append(("old", r.choice([1, 2, 3, 5, 30, 31, 32, 62, 63, 64, 100])))
